@@ -4,12 +4,12 @@ LOG = []
 
 def hit(*args, **kwargs):
     LOG.append(("hit", args, kwargs))
-    return ("sink-result", len(LOG))
+    return ("sink-result", args)
 
 
 def note(*args):
     LOG.append(("note", args, {}))
-    return ("note-result", len(LOG))
+    return ("note-result", args)
 
 
 def other(*args):
